@@ -56,7 +56,8 @@ def strategy(tier):
         "solver": st.sampled_from(["auto", "auto", "nolda", "cg", "cg_jacobi", "cg_sor", "cg_ilu", "cg_mg", "complex"]),
         "filter": st.sampled_from(["conv", "density"]), "multiload": st.sampled_from([0, 2, 3]),
         "nmodes": st.integers(1, 3), "gen": st.booleans(), "sigma": st.booleans(),
-        "dir": st.integers(0, 5), "dense": st.sampled_from(["linsolve_sym", "linsolve_gen", "inverse", "eig_sym"]),
+        "dir": st.integers(0, 5),
+        "dense": st.sampled_from(["linsolve_sym", "linsolve_gen", "inverse", "eig_sym", "linsolve_sym_mixed"]),
         "agg": st.sampled_from(["pnorm", "ks", "soft"]), "agg_opt": st.sampled_from(["plain", "active", "undamped"]),
         "final_k": st.integers(0, 3), "final_seeds": st.lists(st.integers(0, 3), min_size=1, max_size=3),
     })
@@ -246,7 +247,7 @@ def build(case):
         import pymoto as pym
         n, k = 4, 3
         kind = o["dense"]
-        sym = kind != "linsolve_gen"
+        sym = kind != "linsolve_gen"   # (linsolve_sym_mixed rebuilds A0/Ai below)
         A0 = rng.standard_normal((n, n))
         A0 = (A0 @ A0.T + n * np.eye(n)) if sym else (A0 + 3 * n * np.eye(n))
         Ai = [rng.standard_normal((n, n)) * 0.3 for _ in range(k)]
@@ -254,6 +255,21 @@ def build(case):
             Ai = [0.5 * (a + a.T) for a in Ai]
         Mod = _matfun()
         designs = [rng.uniform(-1, 1, k) for _ in range(4)]
+        if kind == "linsolve_sym_mixed":
+            # symmetric matrices with a positive diagonal that are positive definite for some designs and indefinite for
+            # others (Cholesky is chosen from the diagonal, fails, and the solver falls back to LDL)
+            A0 = np.diag(rng.uniform(1.0, 2.0, n))
+            Z = rng.standard_normal((n, n))
+            Z = 0.5 * (Z + Z.T)
+            np.fill_diagonal(Z, 0.0)
+            Z /= np.max(np.abs(np.linalg.eigvalsh(Z)))
+            Ai = [Z] + [np.zeros((n, n)) for _ in range(k - 1)]
+            designs = []
+            for j in range(4):
+                cands = [0.2, 0.35, 0.5] if j % 2 == 0 else [3.0, 3.7, 4.5, 6.0]
+                best = max(cands, key=lambda c: np.min(np.abs(np.linalg.eigvalsh(A0 + c * Z))))
+                designs.append(np.array([best] + [0.0] * (k - 1)))
+            sym = True
         x, A = S("x", designs[0].copy()), S("A")
         mods = [Mod(x, A, A0, Ai)]
         if kind.startswith("linsolve"):
